@@ -7,7 +7,7 @@
     [sorts_to le r a] says: the run [r] returns [Ok b] (no panic, no hang) with [Permutation a b]
     and [Sorted le b].  [TotalPreorder cmp]: [cmp x y < 0 <-> 0 < cmp y x] and [cmp _ _ <= 0] is
     transitive (a Go comparator that is a total preorder; equal-comparing elements may differ). *)
-From Algo.C07 Require Import Model Spec ArrLemmas ProofsInsSel ProofsShell ProofsMerge ProofsHeap ProofsQuick.
+From Algo.C07 Require Import Model Spec ArrLemmas ProofsInsSel ProofsShell ProofsMerge ProofsHeap ProofsQuick ProofsQ3S.
 Open Scope Z_scope.
 
 Section ComparisonSorts.
@@ -56,6 +56,19 @@ Theorem C07_Shuffle : forall (T : Type) (rnd : Z -> Z) (a : list T),
   exists b, Shuffle rnd a = Ok b /\ Permutation a b.
 Proof. intros. apply Shuffle_perm. Qed.
 
+(** * radixsort: byte strings ([is_str]: every element in [0,256)), Go's native order [str_le]
+    (bytewise lexicographic, a proper prefix first).  [Sorted str_le] + [Permutation] determine the
+    output uniquely ([str_le] is antisymmetric), i.e. it is the natively sorted slice. *)
+
+(** Quick3WayString: for every RNG oracle (every outcome of the initial shuffle). *)
+Theorem C07_Quick3WayString : forall (rnd : Z -> Z) (a : list str), Forall is_str a ->
+  sorts_to str_le (Quick3WayString rnd a) a.
+Proof. exact Quick3WayString_correct. Qed.
+
+Theorem C07_Quick3WayStringCore : forall a : list str, Forall is_str a ->
+  sorts_to str_le (Quick3WayStringCore a) a.
+Proof. exact Quick3WayStringCore_correct. Qed.
+
 (** Non-vacuity: concrete runs (a comparator on pairs that ignores the second component). *)
 Example C07_example :
   let cmp := fun x y : Z * Z => fst x - fst y in
@@ -76,3 +89,5 @@ Print Assumptions C07_QuickCore.
 Print Assumptions C07_Quick3Way.
 Print Assumptions C07_Select.
 Print Assumptions C07_Shuffle.
+Print Assumptions C07_Quick3WayString.
+Print Assumptions C07_Quick3WayStringCore.
